@@ -40,7 +40,7 @@ def check_c07(tier):
     for c in list(cases.values())[:2]:
         rep.sample({"file_len": len(c["file"]), "kind": c["filekind"], "strategies": [s["strat"] for s in c["steps"]], "errors": [s["err"] for s in c["steps"]],
                     "stack": len(c["stack"]), "ids": [bytes(i["id"]).decode() for i in c["ids"]][:1]})
-    good = [c for c in cases.values() if c["stack"] and len(c["file"]) < 2000][0]
+    good = [c for c in cases.values() if c["case"] not in rep.rejected_ids and c["stack"] and len(c["file"]) < 2000][0]
     b1 = json.loads(json.dumps(good)); b1["case"] = "neg1"; b1["stack"][0]["sig"][3] ^= 1
     b2 = json.loads(json.dumps(good)); b2["case"] = "neg2"; b2["out"][-1] ^= 1
     b3 = json.loads(json.dumps(good)); b3["case"] = "neg3"; b3["ids"][0]["id"][0] ^= 1
